@@ -735,7 +735,7 @@ class _Parser:
         if op in ("<<", ">>"):
             if (a < 0 or not 0 <= b <= 31) and not self.q:
                 raise BDOutOfDomain("shift of a negative value or by a count outside 0..31")
-            if b < 0 or b > 4096:
+            if b < 0 or (op == "<<" and a != 0 and b > 1 << 27):
                 raise BDSemanticError("negative or absurd shift count")
             return a << b if op == "<<" else a >> b
         if op == "&":
